@@ -39,20 +39,26 @@ def variant_of(e):
 
 
 def state_test(st, P):
-    """value of the entry test on self.state on this path -> variant name"""
+    """value of the entry test(s) on self.state on this path -> variant name: the set of states compatible with every test of the state
+    on the path (an or-pattern arm, an `if let Data` pre-test, a second `match` inside an arm), when it is a single state"""
     names = {d: n for n, d in P.enum_variants(STATE)}
-    seen = None
+    poss = None
     for ev in path_branches(st):
         d = strip(ev[2])
         if d[0] == 'discr':
             x = d[1]
             if x[0] == 'field' and x[2] == 'state':
-                # the most specific test on the path decides (`if let Data = self.state {..}` followed by a `match self.state`)
-                if ev[3] is None:
-                    seen = seen or 'otherwise'
-                else:
-                    return names.get(ev[3], '?%s' % ev[3])
-    return seen
+                t = st.body.blocks[ev[1]]['term']
+                here = set(v for v, tg in zip(t['vals'], t['targets']) if tg == ev[4])
+                if t.get('otherwise') == ev[4]:
+                    here |= set(names) - set(t['vals'])
+                poss = here if poss is None else (poss & here)
+    if poss is None:
+        return None
+    if len(poss) == 1:
+        v = next(iter(poss))
+        return names.get(v, '?%s' % v)
+    return 'otherwise'
 
 
 def cmp_events(st, P=None):
